@@ -38,6 +38,15 @@ func sdStages(props string, quickChildren, quickCases, thChildren, thCases int) 
 			}
 			st = append(st, Stage{Name: "conc", Scenario: "c05conc", Args: "prop=" + props + ",props=" + props, Children: n, Cases: c, GOMAXPROCS: 8, Env: []string{c05Hooks}, Timeout: 20 * time.Minute})
 		}
+		if props == "C01" || props == "C02" {
+			// the same oracles in histories with dataset management between the writes (create, delete, rename,
+			// re-create under an old name, restart): a new dataset starts empty, a renamed one keeps its feed
+			mc, mn := 6, 12
+			if tier == "thorough" {
+				mc, mn = 8, 100
+			}
+			st = append(st, Stage{Name: "mg", Scenario: "dsmgmt", Args: "props=" + props, Children: mc, Cases: mn, Timeout: 25 * time.Minute})
+		}
 		return st
 	}
 }
